@@ -174,6 +174,13 @@ class Gen5(P.Gen):
             e = ("bin", r.choice(["Add", "Sub", "Mul"]), ("col",) + r.choice(cols), ("col",) + r.choice(cols))
         nm = self.newname()
         keep = r.sample(cols, min(len(cols), r.randint(1, 2)))
+        if r.random() < 0.3:
+            # an expression static evaluation folds to a plain column (`null ?? a` = a): the select then requests that column under
+            # a name, WITHOUT a name and (when it is kept as well) as itself -- the repetition reaches deduplicate_select_items (F13)
+            fc = r.choice(cols)
+            e = ("bin", "Coalesce", ("lit", None), ("col",) + fc)
+            if fc not in keep and r.random() < 0.7:
+                keep = keep[:1] + [fc]
         st["stop"] = True
         n = len(st["steps"])
         items_p, items_c = [c for _, c in keep], ["(None, ECol None %d%%N)" % P.nid(c) for _, c in keep]
@@ -240,6 +247,44 @@ def frame_closed(pg):
 EXCLUDING = ("sql.duckdb", "sql.bigquery", "sql.snowflake")     # dialects with `* EXCLUDE (..)` / `* EXCEPT (..)`
 
 
+def dedup_explains(rec, cols):
+    """F13 decided on what the compiler actually saw, not on the spelling of the source: some real call of translate_select_items
+    of this compile (hook verif:select_items) built one item per column of the final frame and deduplicate_select_items dropped
+    some of them -- and the columns missing from the result are EXACTLY the dropped ones (the frame's names without the dropped
+    positions are the result's names).  That the hook's drop is the Dedup.v model's drop is what the dedup / selectitems streams check."""
+    mn = rec.get("model_names") or []
+    rn = rec["program"].meta.get("rename") or {}
+    mn = [rn.get(w, w) if w is not None else None for w in mn]
+    cols = [re.sub(r":\d+$", "", c) for c in cols]
+    ci = any(s_.kind == "casealias" for s_ in rec["program"].steps)
+    _, ans = hook_events([rec["prql"]], (rec["target"],))
+    for e in ans[0].get("entries", []):
+        m = e.get("Message") or ""
+        if not m.startswith("verif:select_items "):
+            continue
+        d = json.loads(m[len("verif:select_items "):])
+        items, final = d["items"], d["final"]
+        if len(items) != len(mn) or len(final) != len(cols) or len(final) >= len(items):
+            continue
+        kept, j = [], 0                     # final is a subsequence of items: which positions survived
+        for i, it in enumerate(items):
+            if j < len(final) and final[j] == it:
+                kept.append(i)
+                j += 1
+        if j != len(final):
+            continue
+        want = [mn[i] for i in kept]
+        # a column id that is requested more than once has ONE name in column_names: when one of its occurrences is unnamed, the id
+        # gets a generated name at a sub-query split and every surviving occurrence shows it (`c AS _expr_0` for the frame column c)
+        cids = [c["cid"] for c in d["in"]["cols"]]
+        twice = {i for i in kept if cids.count(cids[i]) > 1} if len(cids) == len(items) else set()
+        name_ok = lambda k, w, g: w is None or str(w).startswith("?") or (w.lower() == g.lower() if ci else w == g) \
+            or (kept[k] in twice and re.fullmatch(r"_expr_\d+", g) is not None)
+        if all(name_ok(k, w, g) for k, (w, g) in enumerate(zip(want, cols))):
+            return True
+    return False
+
+
 def classify(rec):
     fid = E.classify_common(rec)
     if fid:
@@ -265,14 +310,8 @@ def classify(rec):
         if not jb.info.get("both") and re.search(r"FROM table_\d+ WHERE [^()]*(?<![.\w\"])\"?%s\"? " % re.escape(nm_), sql + " "):
             return "F48-right-column-read-as-left-behind-star"
     # (F47, the unwrap panic on an unnamed column of a joined sub-pipeline, is repaired by 9c40b5a: nothing excuses a panic)
-    if rec["verdict"] in ("names", "rows") and cols_n < frame_n:
-        last_select = sql[sql.rfind("SELECT "):]
-        sel_list = last_select[:last_select.find(" FROM ")] if " FROM " in last_select else last_select
-        # deduplicate_select_items only drops qualified identifiers (`x.col`) whose parts were all seen before
-        if ("joinpick" in kinds or "knownjoin" in kinds) and len(re.findall(r"\b\w+[\"`]?\.[\"`]?\w+", sel_list)) >= 2:
-            return "F13-duplicate-select-merged"
-        if kinds and kinds[-1] == "dupselect":
-            return "F13-duplicate-select-merged"
+    if rec["verdict"] in ("names", "rows") and cols_n < frame_n and dedup_explains(rec, cols):
+        return "F13-duplicate-select-merged"
     if rec["target"] in EXCLUDING and rec["verdict"] == "names":
         # columns that come back on a dialect WITH column exclusion.  Each must be explained:
         # F43: it was excluded by an exclusion that is not the last one (only the last exclusion survives);
